@@ -40,8 +40,14 @@ RULE = (
     "regularization matrices, then terms and evidence as in `evidence`, then reconstruction and terms against the "
     "same scene solved in isolation (fresh objects, explicit fresh Preloads / settings); finally every Preloads / "
     "SettingsInversion instance bound as a default argument of the inversion entry points must equal a freshly "
-    "constructed one attribute by attribute. Non-trivial = the mask has masked pixels carrying non-zero garbage, or "
-    "the linear-object list is partially unregularized, or (scale, multi) every case; distinct = SHA-1 of the "
+    "constructed one attribute by attribute. complex_defs: the four complex definitions of fit_util (and residual_map_from "
+    "on complex input) called directly on 1..12 generated visibilities - real and imaginary parts of data / model / "
+    "residual drawn independently with any sign (exact zeros as a class), complex noise with positive parts, ndarray or "
+    "Visibilities containers, the same unit classes - against a numpy oracle written component-wise from the documented "
+    "definitions (normalized residual re/re + 1j im/im, chi-squared map its component-wise squares, chi-squared = sum of "
+    "real parts + sum of imaginary parts, noise normalization = sum log(2 pi re^2) + sum log(2 pi im^2)), tolerances 1e-12 "
+    "relative to the summed magnitudes, real and imaginary parts reported under separate keys. Non-trivial = the mask has masked pixels carrying non-zero garbage, or "
+    "the linear-object list is partially unregularized, or (scale, multi, complex_defs) every case; distinct = SHA-1 of the "
     "canonical case."
 )
 ASSUMPTIONS = [
@@ -217,6 +223,24 @@ def scale_cases(draw):
             "noise": draw(st.lists(gens.positives(0.05, 10.0), min_size=n, max_size=n)),
             "model": model, "model_kind": mk, "sky": sky if sky == 0.0 else _floored(sky),
             "scales": _scales(draw, 2), "g1": g[0]}
+
+
+@st.composite
+def complex_cases(draw):
+    """Complex data / model / residual (real and imaginary parts drawn independently, any sign, exact zeros allowed),
+    complex noise with positive real and imaginary parts, a chi-squared map with non-negative parts, and a unit."""
+    n = draw(st.integers(1, 12))
+
+    def parts(strategy):
+        return [draw(st.lists(strategy, min_size=n, max_size=n)) for _ in range(2)]
+
+    zeros = draw(st.booleans())
+    val = gens.reals(-10, 10).map(lambda v: v if (zeros and v == 0.0) else _floored(v))
+    return {"data": parts(val), "model": parts(val), "resid": parts(val),
+            "noise": parts(gens.positives(0.05, 10.0)), "chimap": parts(gens.reals(0, 50)),
+            "zeros": zeros, "container": draw(st.sampled_from(["ndarray", "visibilities"])),
+            "scale": draw(st.one_of(st.just(1.0), st.sampled_from(POW2_EXPS).map(lambda e: 2.0 ** e),
+                                    st.sampled_from(NONPOW_SCALES)))}
 
 
 _COEFF_FIELDS = ("coefficient", "coefficient_neighbor", "coefficient_zeroth", "inner_coefficient", "outer_coefficient")
@@ -1028,9 +1052,68 @@ def body_scale(case, ctx):
                      "noise normalization changes by 2 n log(%r) when the units change" % c)
 
 
+# ---------------------------------------------------------------------------------------------
+# sub-check: complex_defs (the complex definitions of fit_util, called directly)
+# ---------------------------------------------------------------------------------------------
+def body_complex(case, ctx):
+    """Oracle written from the documented definitions, component-wise: normalized residual = re(r)/re(s) + 1j im(r)/im(s);
+    chi-squared map = (re(r)/re(s))^2 + 1j (im(r)/im(s))^2; chi-squared = sum of the real parts + sum of the imaginary
+    parts of the chi-squared map; noise normalization = sum log(2 pi re(s)^2) + sum log(2 pi im(s)^2)."""
+    import autoarray as aa
+    from autoarray.fit import fit_util as fu
+    c = float(case["scale"])
+    n = len(case["data"][0])
+    ctx.label("scale:%s" % ("1" if c == 1.0 else ("small" if c < 1.0 else "large") + ("-pow2" if math.frexp(c)[0] == 0.5 else "-nonpow")),
+              "container:%s" % case["container"], "zeros:%s" % ("allowed" if case["zeros"] else "none"), "n:%s" % ("1" if n == 1 else ">1"))
+    ctx.nt(True)
+    re = {k: np.asarray(case[k][0], dtype=float) for k in ("data", "model", "resid", "noise", "chimap")}
+    im = {k: np.asarray(case[k][1], dtype=float) for k in ("data", "model", "resid", "noise", "chimap")}
+    for k in ("data", "model", "resid", "noise"):          # the same visibilities in other units
+        re[k] = re[k] * c
+        im[k] = im[k] * c
+
+    def cplx(k):
+        return re[k] + 1j * im[k]
+
+    def wrap(k):
+        if case["container"] == "visibilities":
+            return (aa.VisibilitiesNoiseMap if k == "noise" else aa.Visibilities)(visibilities=cplx(k))
+        return cplx(k)
+
+    def cmp_complex(got, want_re, want_im, tol_re, tol_im, key, what):
+        got = np.asarray(got)
+        if got.shape != np.shape(want_re):
+            ctx.fail(key + "/shape", "%s has shape %s, expected %s" % (what, got.shape, np.shape(want_re)))
+            return False
+        ok = _cmp(ctx, got.real, want_re, tol_re, key + "/real", what + ", real part")
+        return _cmp(ctx, got.imag, want_im, tol_im, key + "/imag", what + ", imaginary part") and ok
+
+    # residual of complex data (the plain residual_map_from is what FitInterferometer uses): component-wise difference
+    got = fu.residual_map_from(data=wrap("data"), model_data=wrap("model"))
+    cmp_complex(got, re["data"] - re["model"], im["data"] - im["model"], RT * (np.abs(re["data"]) + np.abs(re["model"])),
+                RT * (np.abs(im["data"]) + np.abs(im["model"])), "complex/residual_map_from", "data - model")
+    nr_re, nr_im = re["resid"] / re["noise"], im["resid"] / im["noise"]
+    got = fu.normalized_residual_map_complex_from(residual_map=wrap("resid"), noise_map=wrap("noise"))
+    cmp_complex(got, nr_re, nr_im, RT * np.abs(nr_re), RT * np.abs(nr_im), "complex/normalized_residual_map_complex_from",
+                "re(r)/re(s) + 1j im(r)/im(s)")
+    got = fu.chi_squared_map_complex_from(residual_map=wrap("resid"), noise_map=wrap("noise"))
+    cmp_complex(got, nr_re ** 2, nr_im ** 2, 4 * RT * nr_re ** 2, 4 * RT * nr_im ** 2, "complex/chi_squared_map_complex_from",
+                "(re(r)/re(s))^2 + 1j (im(r)/im(s))^2")
+    chi_ref = float(re["chimap"].sum() + im["chimap"].sum())
+    got = fu.chi_squared_complex_from(chi_squared_map=wrap("chimap"))
+    ctx.check(np.ndim(got) == 0 and not np.iscomplexobj(got), "complex/chi_squared_complex_from/not-a-real-scalar", "got %r" % (got,))
+    _cmp(ctx, float(np.real(got)), chi_ref, RT * chi_ref + 1e-300, "complex/chi_squared_complex_from", "sum re(chi2 map) + sum im(chi2 map)")
+    logs = np.concatenate([np.log(2 * np.pi * re["noise"] ** 2), np.log(2 * np.pi * im["noise"] ** 2)])
+    got = fu.noise_normalization_complex_from(noise_map=wrap("noise"))
+    ctx.check(np.ndim(got) == 0 and not np.iscomplexobj(got), "complex/noise_normalization_complex_from/not-a-real-scalar", "got %r" % (got,))
+    _cmp(ctx, float(np.real(got)), float(logs.sum()), RT * float(np.abs(logs).sum()) + 1e-13 * 2 * n,
+         "complex/noise_normalization_complex_from", "sum log(2 pi re(s)^2) + sum log(2 pi im(s)^2)")
+
+
 SUBCHECKS = [
     SubCheck("scale", body_scale, strategy=scale_cases(), examples={"quick": 3200, "thorough": 24000}, shards={"quick": 16, "thorough": 16}),
     SubCheck("multi", body_multi, strategy=multi_cases(), examples={"quick": 1600, "thorough": 8000}, shards={"quick": 16, "thorough": 16}),
+    SubCheck("complex_defs", body_complex, strategy=complex_cases(), examples={"quick": 1600, "thorough": 32000}, shards={"quick": 16, "thorough": 16}),
     SubCheck("fit", body_fit, strategy=fit_cases(), examples={"quick": 3200, "thorough": 48000}, shards={"quick": 16, "thorough": 16}),
     SubCheck("util", body_util, strategy=util_cases(), examples={"quick": 2400, "thorough": 32000}, shards={"quick": 16, "thorough": 16}),
     SubCheck("evidence", body_evidence, strategy=evidence_cases(), examples={"quick": 2400, "thorough": 32000}, shards={"quick": 16, "thorough": 16}),
